@@ -14,16 +14,17 @@ def model_1d(target, precond, K, h=None):
     """Return dict(xs, zs, J, like, prior, bounds, periodic, precond_kwargs,
     preconditioning) for a 1-D lattice model."""
     m = {"dims": 1, "parameters": ["p0"]}
-    if target in ("box", "hug"):
+    if target in ("box", "hug", "cut", "leak"):
         lo, hi = 0.0, 4.0
-        mu = 1.3 if target == "box" else 4.0
+        mu = 4.0 if target == "hug" else 1.3
         m["like"] = gauss_loglike([mu], [0.8])
+
         m["prior"] = box_logprior([lo], [hi])
         m["bounds"] = {"p0": [lo, hi]}
         m["periodic"] = None
         if precond in ("none", "default"):
             h = h or 0.7
-            x0 = 0.6 if target == "box" else hi - 0.35 - (K - 1) * h
+            x0 = hi - 0.35 - (K - 1) * h if target == "hug" else (hi - 0.2 - (K - 2) * h if target == "leak" else 0.6)
             zs = [x0 + j * h for j in range(K)]
             xs = list(zs)
             J = [1.0] * K
@@ -66,6 +67,16 @@ def model_1d(target, precond, K, h=None):
         m["precond_kwargs"] = None
     else:
         raise ValueError(target)
+    if target == "cut":
+        # likelihood with a hard support cut between the last two lattice points: the last point is dead
+        thr = 0.5 * (xs[-2] + xs[-1])
+        base = m["like"]
+
+        def cut_like(x, base=base, thr=thr):
+            x = np.asarray(x, dtype=np.float64).reshape(len(x), -1)
+            return np.where(x[:, 0] > thr, -np.inf, base(x))
+
+        m["like"] = cut_like
     m.update(xs=xs, zs=zs, J=J, h=h)
     return m
 
